@@ -5,6 +5,7 @@ package main
 import (
 	"fmt"
 	"math"
+	"strings"
 
 	"github.com/ipfs/go-cid"
 	"github.com/ipld/go-ipld-prime"
@@ -42,8 +43,17 @@ func stringToCps(s string) []int {
 	return out
 }
 
+// linkFor: the links of the specification are opaque identifiers; "c1", "c2", "c3" are CIDs over different digests,
+// "c1v" and "c1z" are OTHER links over the digest of "c1" (dag-cbor codec instead of raw; CIDv0): different values.
 func linkFor(id string) datamodel.Link {
-	h, _ := multihash.Sum([]byte("link:"+id), multihash.SHA2_256, -1)
+	base := strings.TrimRight(id, "vz")
+	h, _ := multihash.Sum([]byte("link:"+base), multihash.SHA2_256, -1)
+	switch {
+	case strings.HasSuffix(id, "v"):
+		return cidlink.Link{Cid: cid.NewCidV1(cid.DagCBOR, h)}
+	case strings.HasSuffix(id, "z"):
+		return cidlink.Link{Cid: cid.NewCidV0(h)}
+	}
 	return cidlink.Link{Cid: cid.NewCidV1(cid.Raw, h)}
 }
 
@@ -243,7 +253,7 @@ func jsonOf(n ipld.Node) any {
 }
 
 func init() {
-	for _, id := range []string{"c1", "c2", "c3"} {
+	for _, id := range []string{"c1", "c2", "c3", "c1v", "c1z"} {
 		linkNames[linkFor(id).String()] = id
 	}
 }
